@@ -11,7 +11,7 @@ trap 'git -C /repo worktree remove --force "$WT" >/dev/null 2>&1' EXIT
 cd "$WT"
 cp "$SEED/demo.py" "$WT/_demo.py"
 timeout 120 /venv/bin/python _demo.py >/dev/null 2>&1; A=$?
-git apply "$SEED/patch.diff" || { echo "RESULT seed=$SEED patch-does-not-apply"; exit 3; }
+git apply "$SEED/patch.diff" 2>/dev/null || git apply --3way "$SEED/patch.diff" || { echo "RESULT seed=$SEED patch-does-not-apply"; exit 3; }
 timeout 120 /venv/bin/python _demo.py >/dev/null 2>&1; B=$?
 if [ -z "$SKIP_SUITE" ]; then
   mkdir -p /tmp/sv/tmp_$NAME; T=$(TMPDIR=/tmp/sv/tmp_$NAME timeout 900 /venv/bin/python -m pytest -q -p no:cacheprovider --timeout=900 -q 2>&1 | tail -1)
